@@ -287,14 +287,36 @@ const CRASH_ASSUME: [&str; 3] = [
     "SimDisk implements the RandomAccess contract exactly as the stock backends do",
 ];
 
+fn multi_crash_family(quick: bool) -> Family {
+    Family {
+        name: "multi-crash",
+        count: if quick { 6000 } else { 200_000 },
+        make: Box::new(|seed, idx| {
+            // several crashes in one history, each losing a suffix of the storage operations of
+            // the call in progress (e.g. the oplog truncate after a header write, repeatedly)
+            let mut r = Rng::stream(seed, "C02", idx, "multi-crash");
+            let mut g = G::new(idx);
+            let n = r.range(3, 14) as usize;
+            let steps = gen::multi_crash_history(&mut r, &mut g, n);
+            let mut cfg = Cfg::basic(seed ^ idx);
+            cfg.retag_as = Some("C02.multi".into());
+            world_case(cfg, steps, Fault::None)
+        }),
+    }
+}
+
 fn c02(tier: &str) -> PropDef {
     let quick = tier == "quick";
     let counts = if quick { [819, 6000, 3000, 1500, 2, 0] } else { [7380, 150_000, 80_000, 30_000, 60, 0] };
     PropDef {
         level: "fault_enumeration",
-        rule: "case = one history (writer: sweep over the 9-letter alphabet and seeded 2-14 step traces incl. reopen and make_read_only; replica: honest proof applications with reopen steps) executed fault-free on a journalling SimDisk; then EVERY prefix of its mutating-storage-op journal is materialised, reopened with open(true) and fully scanned (length, byte_length, writeable, has/get of every index) and must equal the model snapshot before or after the interrupted call (strictly 'before' when no op of the call was persisted). A seeded third of the recovered cores then runs a 3-5 step suffix (with a reopen) under the C01 oracle; the thorough tier crashes a second time inside that suffix. distinct = distinct (history) hash; non-trivial = history with at least one mutating step (every one of them gets all its crash points).",
+        rule: "case = one history (writer: sweep over the 9-letter alphabet and seeded 2-14 step traces incl. reopen and make_read_only; replica: honest proof applications with reopen steps) executed fault-free on a journalling SimDisk; then EVERY prefix of its mutating-storage-op journal is materialised, reopened with open(true) and fully scanned (length, byte_length, writeable, has/get of every index) and must equal the model snapshot before or after the interrupted call (strictly 'before' when no op of the call was persisted). A seeded third of the recovered cores then runs a 3-5 step suffix (with a reopen) under the C01 oracle; the thorough tier crashes a second time inside that suffix. Family multi-crash: writer histories in which the process dies repeatedly, each time losing the last 0-6 storage operations of the call in progress (recovery must be before-or-after each time and every later operation, reopen and full scan must satisfy the list model). distinct = distinct (history) hash; non-trivial = history with at least one mutating step (every one of them gets all its crash points).",
         assumptions: CRASH_ASSUME.to_vec(),
-        families: fault_families("C02", FaultKind::Crash { tear: false, double: !quick }, counts, if quick { 3 } else { 4 }),
+        families: {
+            let mut f = fault_families("C02", FaultKind::Crash { tear: false, double: !quick }, counts, if quick { 3 } else { 4 });
+            f.push(multi_crash_family(quick));
+            f
+        },
     }
 }
 
